@@ -538,7 +538,13 @@ TEXT = {
           "start on a foreign database refused). One genesis object initialising several ledgers in one process: every "
           "ledger that ends up initialised holds the full configured initial state (byte for byte the first ledger's key "
           "space), a later start on it is refused or finds that state (model-free monitor; a refused / crashing second "
-          "initialisation is counted, not judged).",
+          "initialisation is counted, not judged). Pure function of the configuration: the header of the genesis momentum is "
+          "modelled (genesisHeader; genesis_timestamp_is_config: TimestampUnix = uint64(GenesisTimestampSec) for every value, 0 / "
+          "member left out included) and replayed on every construction; one configuration - scalar members on boundary values, "
+          "members left out of the file - is built under changed clocks, time zones, GOMAXPROCS, working directories, environments, "
+          "math/rand states, in child processes and >= 1.1 s later, and must give the same hash, content, state patch and ledger; "
+          "a node restarted on its own database at a later clock must start; the references of the genesis-building code to "
+          "time / os / runtime / rand / Clock and its ranges over Go maps are regenerated facts pinned to the reviewed lists.",
   "design_ref": "§3 C20",
   "note": "Permutation / fresh-process invariance of the whole genesis momentum is decided on the real code by the stream's "
           "monitor, not by a theorem. The six defects the check had found in the validators (F13a-f: no contract entry, "
